@@ -168,6 +168,7 @@ SCRIPT = r'''
 FILTERS = __FILTERS__
 bkey = __BKEY__
 bad, ran, refused = [], 0, 0
+nontrivial, samples = set(), []
 for seed in range(__SEED__, __SEED__ + __NDB__):
     db = make_db(seed)
     load_db(bkey, db)
@@ -188,9 +189,15 @@ for seed in range(__SEED__, __SEED__ + __NDB__):
             except Undefined:
                 continue
             ran += 1
+            if 0 < len(want) < len(db[root]):
+                # the filter discriminates on this database: neither nothing nor everything is denoted
+                nontrivial.add((root, f, tuple(want)))
+                if len(samples) < 3:
+                    samples.append({"root": root, "filter": f, "database_seed": seed, "denoted_ids": want, "selected_ids": got})
             if got != want and not any(b[1] == f for b in bad):
                 bad.append([root, f, "database %d: selected %s, denoted %s" % (seed, got, want)])
-print(json.dumps({"violates": bool(bad), "problems": bad, "ran": ran, "refused": refused, "filters": sum(len(v) for v in FILTERS.values()), "databases": __NDB__}))
+print(json.dumps({"violates": bool(bad), "problems": bad, "ran": ran, "refused": refused, "filters": sum(len(v) for v in FILTERS.values()), "databases": __NDB__,
+                  "nontrivial": len(nontrivial), "samples": samples}))
 '''
 
 
@@ -225,7 +232,8 @@ def bounded(bkey, tier):
                       f"seed {seed}): {nat['ran']} comparisons, {nat['refused']} refused; {len(nat['problems']) - len(new)} mismatching filters explained "
                       f"by recorded findings {hit}",
              "reason": json.dumps(new[:3])[:400] if new else "selected parents equal the denoted parents for every filter outside the recorded findings",
-             "native_script": native_script(bkey, sub or {"Post": []}, seed, ndb), "solver_output": json.dumps(new[:3])[:600], "orm": bkey}]
+             "native_script": native_script(bkey, sub or {"Post": []}, seed, ndb), "solver_output": json.dumps(new[:3])[:600], "orm": bkey,
+             "evaluations": nat["ran"], "nontrivial": nat.get("nontrivial", 0), "case_samples": nat.get("samples", [])}]
 
 
 def run_family(facts, fam, tier):
@@ -258,7 +266,15 @@ def replay_spec(facts, r):
 
 
 def evidence(facts, results):
-    return {"trusted_base": ["pyvc symbolic executor and Python semantics of DESIGN section 4", "z3 5.1.0",
+    b = [r for r in results if r.get("bounded")]
+    extra = {"evaluations": sum(r.get("evaluations", 0) for r in b),
+             "distinct_nontrivial": sum(r.get("nontrivial", 0) for r in b),
+             "rule": "a case is one (back end, root model, filter, generated database): the filter is translated by the real visitor, executed through the "
+                     "ORM on in-memory SQLite and compared with the reference semantics; databases are generated from VERIF_SEED (4 authors, 7 posts, "
+                     "9 comments, random NULL foreign keys); a case is non-trivial when the filter denotes some but not all rows of its root table, and "
+                     "distinct when (root, filter, denoted id set) differs; counted per back end",
+             "case_samples": [x for r in b for x in r.get("case_samples", [])][:6]}
+    return {"coverage_extra": extra, "trusted_base": ["pyvc symbolic executor and Python semantics of DESIGN section 4", "z3 5.1.0",
                              "uninterpreted-constructor model of Django / SQLAlchemy calls (DESIGN 4.8)"],
             "assumptions": ["visit_CollectionLambda of both back ends is out of reach of the symbolic executor (model-meta / relationship-inspection loops, "
                             "sub-visitor instantiation): bounded family only",
